@@ -89,6 +89,14 @@ func oracleC03(ctx *harness.Ctx, cs *harness.Case) (ds []harness.Discrepancy) {
 					} else if e.Position == nil {
 						add("C03 error-position-nil Lexer.NextToken", "error without Position")
 					}
+					// a caller that keeps calling NextToken after an error must still get a normal return
+					for k := 0; k < 3; k++ {
+						if e2 := l.NextToken(); e2 != nil {
+							if _, ok := e2.(*memefish.Error); !ok {
+								add("C03 error-type Lexer.NextToken", fmt.Sprintf("error after an error is %T", e2))
+							}
+						}
+					}
 					return nil, nil
 				}
 				if l.Token.Kind == token.TokenEOF {
@@ -301,6 +309,19 @@ func runC03(ctx *harness.Ctx) {
 		}
 		ctx.Sample(map[string]any{"leg": "mutant", "input": q(src)})
 		c03All(ctx, t, "mutant", src)
+	})
+	// valid sentences, unmutated (rare statement families, unusual literal spellings, very long lists)
+	ctx.Rapid("valid", ctx.Pick(3000, 40000), func(t *rapid.T) {
+		var src string
+		switch rapid.IntRange(0, 9).Draw(t, "kind") {
+		case 0:
+			src = drawGenLong(t, "", 2).Text
+		case 1, 2:
+			src = drawGenRelaxed(t, "", drawDepth(t)).Text
+		default:
+			src = drawGen(t, "", drawDepth(t)).Text
+		}
+		c03All(ctx, t, "valid", src)
 	})
 	// (d) nesting probes
 	ctx.Rapid("nesting", ctx.Pick(60, 400), func(t *rapid.T) {
